@@ -75,12 +75,13 @@ func pkgFuncs(files []*ast.File) map[string]*ast.FuncDecl {
 // switchArms returns the canonical bodies of every case clause in fd, keyed by the canonical case list.
 func switchArms(fd *ast.FuncDecl) map[string]string {
 	out := map[string]string{}
-	o := &canonOpts{}
 	ast.Inspect(fd.Body, func(n ast.Node) bool {
 		cc, ok := n.(*ast.CaseClause)
 		if !ok {
 			return true
 		}
+		// names the arm declares itself are positional; names from the enclosing function stay as written
+		o := &canonOpts{Rename: canonLocals(nil, cc)}
 		var labs []string
 		for _, e := range cc.List {
 			labs = append(labs, canonAST(e, o))
@@ -107,8 +108,11 @@ func switchArms(fd *ast.FuncDecl) map[string]string {
 }
 
 func funcCanon(fd *ast.FuncDecl) string {
-	o := &canonOpts{}
-	return canonAST(fd.Type, o) + "\n" + canonAST(fd.Body, o)
+	var pre map[string]string
+	if fd.Recv != nil && len(fd.Recv.List) == 1 && len(fd.Recv.List[0].Names) == 1 {
+		pre = map[string]string{fd.Recv.List[0].Names[0].Name: "$recv"}
+	}
+	return canonFunc(fd.Type, fd.Body, pre)
 }
 
 func c07SiblingAgreement(c *Ctx, p *Prog, wa, wz *packages.Package) {
